@@ -94,6 +94,11 @@ def has_unsigned(f):
                for k in f.variables.keys())
 
 
+def on_disk(f):
+    import netCDF4
+    return isinstance(f, netCDF4.Dataset)
+
+
 def has_zero_dim(f):
     return any(len(d) == 0 for _, d in f.dimensions.items())
 
@@ -398,6 +403,11 @@ def op_eval(rng, f):
     forms = ['NEW = %s * 2', 'NEW = %s + 1.5', 'NEW = np.abs(%s)']
     if not sc:
         forms.append('NEW = %s[:] * 0 + 3')
+    if on_disk(f):
+        # the variables of a file on disk are netCDF4 variables: an
+        # expression reads their data with [...]
+        forms = ['NEW = %s[...] * 2', 'NEW = %s[...] + 1.5',
+                 'NEW = np.abs(%s[...])']
     expr = str(rng.choice(forms)) % a
     copyall = bool(rng.random() < 0.5)
     return ('eval(%r, copyall=%s)' % (expr, copyall),
@@ -405,8 +415,16 @@ def op_eval(rng, f):
             {'expr': expr, 'scalar_operand': sc})
 
 
+def cf_time_exposed(f):
+    """IOAPI file whose CF time coordinate is an ordinary (non-coordinate)
+    variable for mask()/arithmetic: those would blank or transform the values
+    the file's time metadata is read from"""
+    return is_ioapi(f) and any(k in f.variables and k not in f.getCoords()
+                               for k in ('time', 'time_bounds'))
+
+
 def op_arith(rng, f):
-    if not all_numeric(f):
+    if not all_numeric(f) or cf_time_exposed(f):
         return None
     op = str(rng.choice(BINOPS))
     g = f.copy()
@@ -587,6 +605,8 @@ def op_fn_pncexpr(rng, f):
     if not keys or not _plain(f):
         return None
     a = str(rng.choice(keys))
+    if on_disk(f):
+        a = a + '[...]'
     expr = str(rng.choice(['XNEW = %s * 2', 'XNEW = %s + 1.5',
                            'XNEW = np.abs(%s)'])) % a
     return ('pncexpr(%r)' % expr, (lambda: pncexpr(expr, f)), [], True,
